@@ -24,6 +24,7 @@ import GomlVerif.Driver.GoComp
 import GomlVerif.Driver.C01pipe
 import GomlVerif.Driver.Unify
 import GomlVerif.Driver.Solve
+import GomlVerif.Driver.Infer
 import GomlVerif.Driver.GoPP
 import GomlVerif.Driver.Grammar
 
@@ -59,5 +60,6 @@ def main (args : List String) : IO UInt32 := do
   | ["c01pipe"] => Goml.Driver.C01pipe.main; return 0
   | ["unify"] => Goml.Driver.Unify.main; return 0
   | ["solve"] => Goml.Driver.Solve.main; return 0
+  | ["infer"] => Goml.Driver.Infer.main; return 0
   | ["gopp"] => Goml.Driver.GoPP.main; return 0
   | _ => IO.eprintln "usage: gomlmodel <c05|…> < lines"; return 2
